@@ -238,6 +238,9 @@ def check(pid, tier='quick', seed=0, shared=None, write_evidence=True, quiet=Fal
             if (fn['mod'], fn['name']) in rl_fns or None in rl_fns:
                 inconclusive.append(f'{wname}: rlimit exceeded in {fq}')
                 continue
+            if fn.get('dropped_hints') and fl:
+                inconclusive.append(f'{wname}: {fq} lost the anchor of proof hint(s) {fn["dropped_hints"]} and no longer verifies: undecided')
+                continue
             if tm is None and not fl:
                 inconclusive.append(f'{wname}: {fq} missing from Verus function breakdown')
                 continue
